@@ -1920,7 +1920,7 @@ func (p *wat2cWorker) buildFunc_ins(w io.Writer, fn *ast.Func, stk *valueTypeSta
 	case token.INS_F32_NEG:
 		sp0 := stk.Pop(token.F32)
 		ret0 := stk.Push(token.F32)
-		fmt.Fprintf(w, "%sR%d.f32 = 0-R%d.f32; // %s\n",
+		fmt.Fprintf(w, "%sR%d.f32 = -R%d.f32; // %s\n",
 			indent, ret0, sp0,
 			insString(i),
 		)
@@ -1948,7 +1948,8 @@ func (p *wat2cWorker) buildFunc_ins(w io.Writer, fn *ast.Func, stk *valueTypeSta
 	case token.INS_F32_NEAREST:
 		sp0 := stk.Pop(token.F32)
 		ret0 := stk.Push(token.F32)
-		fmt.Fprintf(w, "%sR%d.f32 = roundf(R%d.f32); // %s\n",
+		// rint: ties to even; a NaN operand must come back quiet (x + x), the inlined rint returns it as is
+		fmt.Fprintf(w, "%[1]sR%[2]d.f32 = (R%[3]d.f32 != R%[3]d.f32)? R%[3]d.f32 + R%[3]d.f32: rintf(R%[3]d.f32); // %[4]s\n",
 			indent, ret0, sp0,
 			insString(i),
 		)
@@ -1995,7 +1996,8 @@ func (p *wat2cWorker) buildFunc_ins(w io.Writer, fn *ast.Func, stk *valueTypeSta
 		sp0 := stk.Pop(token.F32)
 		sp1 := stk.Pop(token.F32)
 		ret0 := stk.Push(token.F32)
-		fmt.Fprintf(w, "%sR%d.f32 = fminf(R%d.f32, R%d.f32); // %s\n",
+		// fminf returns the other operand for a NaN and either zero for (-0, +0)
+		fmt.Fprintf(w, "%[1]sR%[2]d.f32 = (R%[3]d.f32 != R%[3]d.f32 || R%[4]d.f32 != R%[4]d.f32)? R%[3]d.f32 + R%[4]d.f32: (R%[3]d.f32 == R%[4]d.f32)? (signbit(R%[3]d.f32)? R%[3]d.f32: R%[4]d.f32): (R%[3]d.f32 < R%[4]d.f32? R%[3]d.f32: R%[4]d.f32); // %[5]s\n",
 			indent, ret0, sp1, sp0,
 			insString(i),
 		)
@@ -2003,7 +2005,8 @@ func (p *wat2cWorker) buildFunc_ins(w io.Writer, fn *ast.Func, stk *valueTypeSta
 		sp0 := stk.Pop(token.F32)
 		sp1 := stk.Pop(token.F32)
 		ret0 := stk.Push(token.F32)
-		fmt.Fprintf(w, "%sR%d.f32 = fmaxf(R%d.f32, R%d.f32); // %s\n",
+		// fmaxf returns the other operand for a NaN and either zero for (-0, +0)
+		fmt.Fprintf(w, "%[1]sR%[2]d.f32 = (R%[3]d.f32 != R%[3]d.f32 || R%[4]d.f32 != R%[4]d.f32)? R%[3]d.f32 + R%[4]d.f32: (R%[3]d.f32 == R%[4]d.f32)? (signbit(R%[3]d.f32)? R%[4]d.f32: R%[3]d.f32): (R%[3]d.f32 > R%[4]d.f32? R%[3]d.f32: R%[4]d.f32); // %[5]s\n",
 			indent, ret0, sp1, sp0,
 			insString(i),
 		)
@@ -2025,7 +2028,7 @@ func (p *wat2cWorker) buildFunc_ins(w io.Writer, fn *ast.Func, stk *valueTypeSta
 	case token.INS_F64_NEG:
 		sp0 := stk.Pop(token.F64)
 		ret0 := stk.Push(token.F64)
-		fmt.Fprintf(w, "%sR%d.f64 = 0-R%d.f64; // %s\n",
+		fmt.Fprintf(w, "%sR%d.f64 = -R%d.f64; // %s\n",
 			indent, ret0, sp0,
 			insString(i),
 		)
@@ -2053,7 +2056,8 @@ func (p *wat2cWorker) buildFunc_ins(w io.Writer, fn *ast.Func, stk *valueTypeSta
 	case token.INS_F64_NEAREST:
 		sp0 := stk.Pop(token.F64)
 		ret0 := stk.Push(token.F64)
-		fmt.Fprintf(w, "%sR%d.f64 = round(R%d.f64); // %s\n",
+		// rint: ties to even; a NaN operand must come back quiet (x + x), the inlined rint returns it as is
+		fmt.Fprintf(w, "%[1]sR%[2]d.f64 = (R%[3]d.f64 != R%[3]d.f64)? R%[3]d.f64 + R%[3]d.f64: rint(R%[3]d.f64); // %[4]s\n",
 			indent, ret0, sp0,
 			insString(i),
 		)
@@ -2100,7 +2104,8 @@ func (p *wat2cWorker) buildFunc_ins(w io.Writer, fn *ast.Func, stk *valueTypeSta
 		sp0 := stk.Pop(token.F64)
 		sp1 := stk.Pop(token.F64)
 		ret0 := stk.Push(token.F64)
-		fmt.Fprintf(w, "%sR%d.f64 = fmin(R%d.f64, R%d.f64); // %s\n",
+		// fmin returns the other operand for a NaN and either zero for (-0, +0)
+		fmt.Fprintf(w, "%[1]sR%[2]d.f64 = (R%[3]d.f64 != R%[3]d.f64 || R%[4]d.f64 != R%[4]d.f64)? R%[3]d.f64 + R%[4]d.f64: (R%[3]d.f64 == R%[4]d.f64)? (signbit(R%[3]d.f64)? R%[3]d.f64: R%[4]d.f64): (R%[3]d.f64 < R%[4]d.f64? R%[3]d.f64: R%[4]d.f64); // %[5]s\n",
 			indent, ret0, sp1, sp0,
 			insString(i),
 		)
@@ -2108,7 +2113,8 @@ func (p *wat2cWorker) buildFunc_ins(w io.Writer, fn *ast.Func, stk *valueTypeSta
 		sp0 := stk.Pop(token.F64)
 		sp1 := stk.Pop(token.F64)
 		ret0 := stk.Push(token.F64)
-		fmt.Fprintf(w, "%sR%d.f64 = fmax(R%d.f64, R%d.f64); // %s\n",
+		// fmax returns the other operand for a NaN and either zero for (-0, +0)
+		fmt.Fprintf(w, "%[1]sR%[2]d.f64 = (R%[3]d.f64 != R%[3]d.f64 || R%[4]d.f64 != R%[4]d.f64)? R%[3]d.f64 + R%[4]d.f64: (R%[3]d.f64 == R%[4]d.f64)? (signbit(R%[3]d.f64)? R%[4]d.f64: R%[3]d.f64): (R%[3]d.f64 > R%[4]d.f64? R%[3]d.f64: R%[4]d.f64); // %[5]s\n",
 			indent, ret0, sp1, sp0,
 			insString(i),
 		)
@@ -2207,7 +2213,7 @@ func (p *wat2cWorker) buildFunc_ins(w io.Writer, fn *ast.Func, stk *valueTypeSta
 	case token.INS_F32_CONVERT_I32_U:
 		sp0 := stk.Pop(token.I32)
 		ret0 := stk.Push(token.F32)
-		fmt.Fprintf(w, "%sR%d.f32 = (float)(R%d.u32); // %s\n",
+		fmt.Fprintf(w, "%sR%d.f32 = (float)(uint32_t)(R%d.i32); // %s\n",
 			indent, ret0, sp0,
 			insString(i),
 		)
@@ -2221,7 +2227,7 @@ func (p *wat2cWorker) buildFunc_ins(w io.Writer, fn *ast.Func, stk *valueTypeSta
 	case token.INS_F32_CONVERT_I64_U:
 		sp0 := stk.Pop(token.I64)
 		ret0 := stk.Push(token.F32)
-		fmt.Fprintf(w, "%sR%d.f32 = (float)(R%d.u64); // %s\n",
+		fmt.Fprintf(w, "%sR%d.f32 = (float)(uint64_t)(R%d.i64); // %s\n",
 			indent, ret0, sp0,
 			insString(i),
 		)
@@ -2242,7 +2248,7 @@ func (p *wat2cWorker) buildFunc_ins(w io.Writer, fn *ast.Func, stk *valueTypeSta
 	case token.INS_F64_CONVERT_I32_U:
 		sp0 := stk.Pop(token.I32)
 		ret0 := stk.Push(token.F64)
-		fmt.Fprintf(w, "%sR%d.f64 = (double)(R%d.u32); // %s\n",
+		fmt.Fprintf(w, "%sR%d.f64 = (double)(uint32_t)(R%d.i32); // %s\n",
 			indent, ret0, sp0,
 			insString(i),
 		)
@@ -2256,7 +2262,7 @@ func (p *wat2cWorker) buildFunc_ins(w io.Writer, fn *ast.Func, stk *valueTypeSta
 	case token.INS_F64_CONVERT_I64_U:
 		sp0 := stk.Pop(token.I64)
 		ret0 := stk.Push(token.F64)
-		fmt.Fprintf(w, "%sR%d.f64 = (double)(R%d.u64); // %s\n",
+		fmt.Fprintf(w, "%sR%d.f64 = (double)(uint64_t)(R%d.i64); // %s\n",
 			indent, ret0, sp0,
 			insString(i),
 		)
